@@ -8,6 +8,9 @@
    set of inputs. *)
 From Eino Require Import Base.Util Model.Concat.
 
+Section User.
+Context {U : UserFn}.
+
 Record toolcall : Type := mkTC {
   tc_idx : option Z;        (* *int Index; nil = None *)
   tc_id : string;
@@ -182,3 +185,5 @@ Definition msglist_stream (l : list (list (option msg))) : res (list (option msg
   | [x] => Ok x
   | _ => concat_msg_arrays l
   end.
+
+End User.
